@@ -10,6 +10,7 @@ mod ladder;
 mod menu;
 mod sweep;
 mod iana;
+mod json;
 mod props;
 mod reexport;
 mod refmodel;
@@ -56,6 +57,7 @@ fn main() {
                 "C12" => props::c12::run(tier),
                 "C13" => props::c13::run(tier),
                 "C14" => props::c14::run(tier),
+                "C16" => props::c16::run(tier),
                 "C17" => props::c17::run(tier),
                 _ => {
                     eprintln!("unknown property {}", id);
